@@ -1,5 +1,5 @@
 """C01 — every started operation completes exactly once, never before start."""
-import k1, k2
+import k1, k2, k2v2
 from units import when_all
 LEVEL = "proof"
 def run(chk, replay=None):
@@ -13,3 +13,4 @@ def run(chk, replay=None):
     chk.prove()
     k1.run_unit(chk, when_all.WhenAllRefElect())
     k2.standard_k2(chk)   # ties the Calc model (Properties_C01_calc.v) to the real algorithms
+    k2v2.standard_k2v2(chk)   # second-generation model Calc2 (lifetimes, contexts, more algorithms): tie (theorems: Properties_*_calc2.v)
